@@ -20,6 +20,9 @@ static ST3: UBig = unsafe { UBig::from_static_words(&S3) };
 static ST5: UBig = unsafe { UBig::from_static_words(&S5) };
 static ST9: UBig = unsafe { UBig::from_static_words(&S9) };
 
+/// set while a history provokes a documented panic on purpose (the runner's panic hook stays quiet then)
+pub static EXPECT_PANIC: std::sync::atomic::AtomicBool = std::sync::atomic::AtomicBool::new(false);
+
 #[derive(Default, Debug, Clone)]
 pub struct Stats {
     pub steps: u64,
@@ -80,7 +83,7 @@ pub fn run_history(r: &mut Rng, cfg: &Cfg, log: &mut Vec<String>) -> Result<Stat
         let j = r.usize(n);
         let k = r.usize(n);
         let was_heap = is_heap(&p[i]);
-        let opn = r.below(42);
+        let opn = r.below(44);
         let name: &'static str;
         macro_rules! bin {
             ($nm:expr, $op:tt) => {{
@@ -429,6 +432,37 @@ pub fn run_history(r: &mut Rng, cfg: &Cfg, log: &mut Vec<String>) -> Result<Stat
                 drop((a, b, y, inv));
                 drop(ring);
                 log.push(format!("{}: p[{}] = (p[{}]*p[{}] + p[{}] - p[{}]) mod |p[{}]|", step, i, k, i, k, i, j));
+            }
+            42 | 43 => {
+                name = "panic_unwind";
+                // documented panics (division by zero, negative UBig result) while the operands own heap buffers: the
+                // unwinding path has to release every buffer exactly once and leave the operand of an in-place form in a
+                // valid state. The operand is checked and dropped afterwards; slot i keeps its value.
+                let which = r.below(10);
+                let mut t: IBig = p[j].clone();
+                let mut u: UBig = p[j].clone().unsigned_abs();
+                let big: UBig = &u + UBig::ONE;
+                EXPECT_PANIC.store(true, std::sync::atomic::Ordering::SeqCst);
+                let res = crate::mon::catch(|| match which {
+                    0 => t /= IBig::ZERO,
+                    1 => t %= &IBig::ZERO,
+                    2 => u -= &big,
+                    3 => u -= big.clone(),
+                    4 => u /= UBig::ZERO,
+                    5 => u /= 0u8,
+                    6 => u %= &UBig::ZERO,
+                    7 => t /= 0i32,
+                    8 => drop(&t / &IBig::ZERO),
+                    _ => drop(u.clone() - big.clone()),
+                });
+                EXPECT_PANIC.store(false, std::sync::atomic::Ordering::SeqCst);
+                if res.is_ok() {
+                    return Err(format!("step {}: provoked panic #{} on {} did not happen | last ops: {:?}", step, which, show_int(&q[j]), &log[log.len().saturating_sub(6)..]));
+                }
+                layout::check_i(&t).map_err(|e| format!("step {} (panic_unwind #{}): left operand after the panic: {}", step, which, e))?;
+                layout::check_u(&u).map_err(|e| format!("step {} (panic_unwind #{}): left operand after the panic: {}", step, which, e))?;
+                drop((t, u, big));
+                log.push(format!("{}: provoked panic #{} with p[{}]", step, which, j));
             }
             38 => {
                 name = "bit_edit";
